@@ -102,7 +102,7 @@ Normalised(a) ==
 \* ============================================================ the catalog ==
 \* Parameter kinds with fixed domains.  ext = declared external type.
 Kinds == {"D", "I", "S", "Si", "Sn", "C", "B"}
-KType(k) == CASE k = "D" -> "DOUBLE" [] k = "I" -> "INTEGER" [] k \in {"S", "Si", "Sn"} -> "DISCRETE" [] OTHER -> "CATEGORICAL"
+KType(k) == CASE k \in {"D", "Dp"} -> "DOUBLE" [] k \in {"I", "Ip"} -> "INTEGER" [] k \in {"S", "Si", "Sn"} -> "DISCRETE" [] OTHER -> "CATEGORICAL"
 KLo(k) == CASE k = "D" -> 0 [] k = "I" -> -2 [] OTHER -> 0      \* half units: D = [0.0, 2.5], I = [-1, 2]
 KHi(k) == CASE k = "D" -> 5 [] k = "I" -> 4 [] OTHER -> 0
 KFeasH(k) == CASE k = "S" -> {1, 2, 4} [] k = "Si" -> {2, 4, 6} [] k = "Sn" -> {-6, -2, 4} [] OTHER -> {}
@@ -192,8 +192,10 @@ BuilderPrograms ==
   {[first |-> [kind |-> k1, name |-> "x"], second |-> [where |-> "root", pval |-> "", kind |-> k2, name |-> n2]] :
       k1 \in Kinds, k2 \in Kinds, n2 \in {"x", "y"}}
   \cup {[first |-> [kind |-> k1, name |-> "x"], second |-> [where |-> "child", pval |-> pv, kind |-> k2, name |-> n2]] :
-      k1 \in Kinds, k2 \in {"D", "C"}, n2 \in {"x", "y"}, pv \in {"a", "True", "2", "4", "1", "z", "7"}}
-PvalInDomain(k, pv) == IF k = "I" THEN pv \in {"-2", "0", "2", "4"} ELSE IF k = "D" THEN pv \in {"0", "1", "2", "4"} ELSE pv \in KValues(k)
+      k1 \in Kinds \cup {"Dp", "Ip"}, k2 \in {"D", "C"}, n2 \in {"x", "y"}, pv \in {"a", "True", "2", "4", "1", "z", "7"}}
+\* Dp, Ip: single-point ranges [1.0, 1.0] and [1, 1] (builder programs only): one feasible value does not make a continuous
+\* parameter a legal parent, and does not stop an integer one from being one.
+PvalInDomain(k, pv) == IF k \in {"Dp", "Ip"} THEN pv = "2" ELSE IF k = "I" THEN pv \in {"-2", "0", "2", "4"} ELSE IF k = "D" THEN pv \in {"0", "1", "2", "4"} ELSE pv \in KValues(k)
 ValidProgram(p) ==
   IF p.second.where = "root" THEN p.second.name # p.first.name
   ELSE KType(p.first.kind) # "DOUBLE" /\ PvalInDomain(p.first.kind, p.second.pval)
